@@ -83,6 +83,24 @@ Theorem c19_record_never_split : forall c s r now cur d,
 Proof. exact write_record_whole. Qed.
 Print Assumptions c19_record_never_split.
 
+(* a log path that is a symbolic link (or any other kind of entry) rotates like a plain file: os.Rename moves
+   the ENTRY, so -- seen through open() -- the directory changes exactly as the model's rotate says (the records
+   written before the rotation are under the backup name), the backup name carries the same link to the same
+   untouched target, and the path is a fresh empty regular file. All durability theorems therefore apply to
+   the view of a directory with links. *)
+Theorem c19_symlink_rotation : forall store file B L e,
+  file <> B -> alookup name_eqb file L = Some e ->
+  let L' := l_create file (l_rename file B L) in
+  view store L' = fs_put file ([], 0%nat) (fs_rename file B (view store L)) /\
+  alookup name_eqb B L' = Some e /\
+  alookup name_eqb file L' = Some (Reg ([], 0%nat)).
+Proof. exact symlink_rotation. Qed.
+Print Assumptions c19_symlink_rotation.
+
+Theorem c19_symlink_cleanup : forall store n L, view store (l_remove n L) = fs_remove n (view store L).
+Proof. exact view_remove. Qed.
+Print Assumptions c19_symlink_cleanup.
+
 (* compression on, no compress phase failing: however the compress phases of earlier rotations overlap with
    later rotations, a backup whose compress phase is over is no longer a plain file -- with
    c19_no_loss_no_dup_in_order its chunk is then under F.gz, gzipped once, or was removed by clean-up. In
